@@ -139,7 +139,7 @@ def r3_abort_ladder(report, repo):
     if p.end != 'exit':
       return None
     seq = []
-    for n, _ in p.steps:
+    for i, (n, _) in enumerate(p.steps):
       for sub in n.subnodes():
         if isinstance(sub, ast.Call):
           cn = call_name(sub)
@@ -150,6 +150,10 @@ def r3_abort_ladder(report, repo):
           elif cn == 'self._stop_phase_executor':
             fv = core.get_kw(sub, 'force', 0)
             forced = isinstance(fv, ast.Constant) and fv.value is True
+            if fv is not None and not isinstance(fv, ast.Constant):
+              # e.g. force=<the flag as it was read at the top>
+              forced = lib.eval_expr(fv, v, classify, p,
+                                     before_index=i) is True
             seq.append('stop(force)' if forced else 'stop')
     want = ['full.set', 'stop(force)'] if v['already'] else ['abort.set', 'stop']
     if seq != want:
@@ -167,9 +171,34 @@ def r3_abort_ladder(report, repo):
   fz = repo.func(TS, 'TestState._finalize')
   asserts = [n for n in walk_no_nested(fz.node) if isinstance(n, ast.Assert)]
   ok = False
+  gz = lib.cfg(fz)
+  outp = lib.param_names(fz.node)[1]
   for x in asserts:
-    txt = norm(x.test)
-    if 'is_finalized' in txt and 'aborting' in txt:
+    t = x.test
+    if not (isinstance(t, ast.BoolOp) and isinstance(t.op, ast.Or) and
+            len(t.values) == 2):
+      continue
+    nf = [v for v in t.values if isinstance(v, ast.UnaryOp) and isinstance(
+        v.op, ast.Not) and dotted(v.operand) == 'self.is_finalized']
+    rest = [v for v in t.values if not any(v is y for y in nf)]
+    if len(nf) != 1 or len(rest) != 1:
+      continue
+    # the other disjunct: `<outcome parameter> == Outcome.ABORTED`, written
+    # in place or bound to a local first
+    nodes = gz.nodes_of(x)
+    vals = lib.value_exprs(gz, nodes[0], rest[0]) if nodes and isinstance(
+        rest[0], ast.Name) else [rest[0]]
+    if not nodes and isinstance(rest[0], ast.Name):
+      vals = [n.value for n in walk_no_nested(fz.node) if isinstance(
+          n, ast.Assign) and core.is_name(n.targets[0], rest[0].id)]
+    if vals and all(
+        isinstance(v, ast.Compare) and len(v.ops) == 1 and isinstance(
+            v.ops[0], ast.Eq) and {dotted(v.left), (dotted(
+                v.comparators[0]) or '').split('.')[-1]} >= {outp, 'ABORTED'}
+        or (isinstance(v, ast.Compare) and len(v.ops) == 1 and isinstance(
+            v.ops[0], ast.Eq) and dotted(v.comparators[0]) == outp and
+            (dotted(v.left) or '').endswith('Outcome.ABORTED'))
+        for v in vals):
       ok = True
   report.check(ok, rule, fz.qualname, 'assert-not-finalized-or-aborting',
                fz.node, '_finalize refuses a second finalisation unless '
